@@ -367,8 +367,19 @@ func loadCorpus(outDir string) (htmlC, mdC []string, src string) {
 	src = "repo test files"
 	// frozen copy (regressions and the witnesses of the fixed defects)
 	var frozen struct{ HTML, Markdown []string }
-	root := filepath.Join(outDir, "..", "..")
-	if raw, err := os.ReadFile(filepath.Join(root, "corpus", "C37", "corpus.json")); err == nil && json.Unmarshal(raw, &frozen) == nil {
+	// the output directory is <verif>/out/C37 or, for runs against a scratch repository,
+	// <verif>/out/alt-*/out/C37: walk up until the corpus is found; a missing corpus is fatal
+	// (it holds the witnesses of the fixed defects)
+	var raw []byte
+	err := os.ErrNotExist
+	for dir, i := outDir, 0; i < 8 && err != nil; dir, i = filepath.Dir(dir), i+1 {
+		raw, err = os.ReadFile(filepath.Join(dir, "corpus", "C37", "corpus.json"))
+	}
+	if err != nil {
+		fmt.Fprintln(os.Stderr, "harness: corpus/C37/corpus.json not found above", outDir)
+		os.Exit(3)
+	}
+	if json.Unmarshal(raw, &frozen) == nil {
 		for _, h := range frozen.HTML {
 			b, _ := hex.DecodeString(h)
 			htmlC = append(htmlC, string(b))
@@ -420,7 +431,11 @@ func genSoup(r *hx.Rand, bad bool) []byte {
 		case c == 12:
 			sb.WriteString([]string{"<!-- c -->", "<!doctype html>", "<br/>", "<b/>", "</ >", "<![CDATA[x]]>", "<?pi?>", "</", "<", "<a", "<i x=\"", "</i "}[r.Intn(12)])
 		case c == 13 && bad:
-			sb.Write(badBytes[r.Intn(len(badBytes))])
+			if r.Bool() {
+				sb.Write(splitAround(r, []string{"<b>", "</b>", "<i></i>", "<!-- -->", "</>", "<br/>", "<a href=x.y>", "<code>", "</code>"}))
+			} else {
+				sb.Write(badBytes[r.Intn(len(badBytes))])
+			}
 		default:
 			sb.WriteString(textSnips[r.Intn(len(textSnips))] + " ")
 		}
@@ -440,6 +455,12 @@ func genMD(r *hx.Rand, bad bool) []byte {
 	for i := r.Range(1, 14); i > 0; i-- {
 		if bad && r.Chance(1, 8) {
 			sb.Write(badBytes[r.Intn(len(badBytes))])
+		}
+		if bad && r.Chance(1, 6) {
+			sb.Write(splitAround(r, []string{"*", "**", "_", "~~", "||", "`", "[](http://a.b)", "![](tg://emoji?id=1)", "***"}))
+			if r.Bool() {
+				sb.WriteString([]string{"*", "**", "~~", "||", "`"}[r.Intn(5)])
+			}
 		}
 		sb.WriteString(mdSnips[r.Intn(len(mdSnips))])
 	}
@@ -551,6 +572,57 @@ func (w *mdWalk) block(n gast.Node) string {
 		return "(MFenced " + hx.List(ls) + " " + hx.B(string(n.Language(w.src)) != "") + ")"
 	}
 	return "(MBlock " + w.blocks(n) + ")"
+}
+
+// splitRuneInputs: sources that are NOT valid UTF-8 only because markup that the parser removes
+// stands between the bytes of one multi-byte rune; after the markup is gone the halves re-join, so
+// any validity check that looks at anything but what the builder is given per chunk is fooled. Every
+// template ends in a one-unit entity at the very end of the text, so any drift of the UTF-16
+// counter pushes that entity out of the text.
+func splitRuneInputs(md bool) [][]byte {
+	runes := []string{"é", "€", "\U0001F600", "\U0010FFFF", "ࠀ"}
+	var tpl []string
+	if md {
+		tpl = []string{"A*B* *x*", "*A*B *x*", "A**B** *x*", "**A**B *x*", "A_B_ *x*", "A~~B~~ *x*", "~~A~~B *x*", "A||B|| *x*", "||A||B *x*",
+			"A`B` *x*", "`A`B *x*", "A[](http://a.b)B *x*", "A[B](http://a.b) *x*", "[A](http://a.b)B *x*", "A![](tg://emoji?id=1)B *x*",
+			"A![B](tg://emoji?id=1) *x*", "A***B*** *x*", "A*B*\n\n> *x*", "*A**B* **x**", "A\\*B* *x*", "> A*B* *x*", "A*B*\n\n```\nx\n```"}
+	} else {
+		tpl = []string{"A<b>B</b><i>x</i>", "<b>A</b>B<i>x</i>", "A<u></u>B<i>x</i>", "A<!-- c -->B<i>x</i>", "A<br/>B<i>x</i>", "A<!doctype html>B<i>x</i>",
+			"<a href=\"http://x.y/\">A</a>B<i>x</i>", "<pre>A<code>B</code></pre><i>x</i>", "A<unknown>B</unknown><i>x</i>", "<b>A<i>B</i></b><s>x</s>", "A<b>B</><i>x</i>", "A<?pi?>B<i>x</i>"}
+	}
+	var out [][]byte
+	for _, r := range runes {
+		for cut := 1; cut < len(r); cut++ {
+			for _, t := range tpl {
+				out = append(out, []byte(fillAB(t, r[:cut], r[cut:])))
+			}
+		}
+	}
+	return out
+}
+
+// fillAB replaces the placeholder letters A and B (upper case, which no template uses otherwise).
+func fillAB(t, a, b string) string {
+	var sb strings.Builder
+	for i := 0; i < len(t); i++ {
+		switch t[i] {
+		case 'A':
+			sb.WriteString(a)
+		case 'B':
+			sb.WriteString(b)
+		default:
+			sb.WriteByte(t[i])
+		}
+	}
+	return sb.String()
+}
+
+// splitAround: one random multi-byte rune cut at a random byte with a markup snippet in between
+func splitAround(r *hx.Rand, snips []string) []byte {
+	runes := []string{"é", "ß", "€", "中", "\U0001F600", "\U0001F3F3", "\U0010FFFF"}
+	ru := runes[r.Intn(len(runes))]
+	cut := r.Range(1, len(ru)-1)
+	return []byte(ru[:cut] + snips[r.Intn(len(snips))] + ru[cut:])
 }
 
 func main() {
@@ -667,7 +739,16 @@ func main() {
 			mdOne("md-corpus", []byte(s))
 		}
 	}
-	for i := c.N(500, 60000); i > 0; i-- {
+	for _, in := range splitRuneInputs(false) {
+		htmlOne("html-split-rune", in, false, false, 0)
+		if c.Thorough() || c.Rng.Chance(1, 3) {
+			htmlOne("html-split-rune-noescape", in, true, false, 0)
+		}
+	}
+	for _, in := range splitRuneInputs(true) {
+		mdOne("md-split-rune", in)
+	}
+	for i := c.N(400, 60000); i > 0; i-- {
 		htmlOne("html-soup", genSoup(c.Rng, false), c.Rng.Chance(1, 5), false, c.Rng.Intn(4)*c.Rng.Intn(2))
 	}
 	for i := c.N(200, 20000); i > 0; i-- {
@@ -686,7 +767,7 @@ func main() {
 		}
 		unescOne(sb.Bytes())
 	}
-	for i := c.N(500, 100000); i > 0; i-- {
+	for i := c.N(350, 100000); i > 0; i-- {
 		mdOne("md-soup", genMD(c.Rng, false))
 	}
 	for i := c.N(100, 20000); i > 0; i-- {
